@@ -19,19 +19,26 @@ ASSUME P!Tokens(<<"/">>) = << <<>> >> /\ P!Tokens(<<>>) = <<>> /\ P!Tokens(<<"/"
 Items == { [kind |-> "exact", at |-> <<"/", "a">>, name |-> 1],
            [kind |-> "registry", at |-> <<"/", "a">>, name |-> 2],
            [kind |-> "struct", at |-> <<"/", "a", "b">>, name |-> 3],
+           [kind |-> "exact", at |-> <<"/", "a", "/", "x">>, name |-> 6],       \* an exact route inside the registry's mount
            [kind |-> "mw", at |-> <<>>, name |-> 4],
            [kind |-> "mw", at |-> <<>>, name |-> 5] }
 Perms == {s \in [1..Cardinality(Items) -> Items] : \A i, j \in 1..Cardinality(Items) : i # j => s[i] # s[j]}
 TestPaths == { <<"/", "a">>, <<"/", "a", "/", "x">>, <<"/", "a", "/">>, <<"/", "a", "b">>, <<"/", "a", "b", "/", "c">>, <<"/", "a", "b", "c">>,
-               <<"/", "a", "x">>, <<"/", "z">>, <<>>, <<"/">>, <<"/", "a", "b", "/", "c", "~", "1", "d">> }
+               <<"/", "a", "x">>, <<"/", "z">>, <<>>, <<"/">>, <<"/", "a", "b", "/", "c", "~", "1", "d">>,
+               \* escapes are part of the path as routed: "~1" is not a "/" boundary, whatever it decodes to later
+               <<"/", "a", "~", "1", "x">>, <<"/", "a", "b", "~", "1", "c">>, <<"/", "a", "~", "0">>, <<"/", "a", "/", "~", "1", "x">> }
 ASSUME \A o \in Perms :
          /\ Lookup(o, <<"/", "a">>).name = 1                  \* exact beats the mount with the same prefix
-         /\ Lookup(o, <<"/", "a", "/", "x">>).name = 2         \* extends at a "/" boundary
+         /\ Lookup(o, <<"/", "a", "/", "x">>).name = 6         \* an exact route beats the mount it lies in
+         /\ Lookup(o, <<"/", "a", "/">>).name = 2               \* extends at a "/" boundary
          /\ Lookup(o, <<"/", "a", "b">>).name = 3              \* "/ab" shares a string prefix with "/a" but no boundary
          /\ Lookup(o, <<"/", "a", "b", "/", "c">>).name = 3
          /\ Lookup(o, <<"/", "a", "b", "c">>).name = 0
          /\ Lookup(o, <<"/", "a", "x">>).name = 0
          /\ Lookup(o, <<"/", "z">>).name = 0
+         /\ Lookup(o, <<"/", "a", "~", "1", "x">>).name = 0    \* decodes to "/a/x", but is not below the mount "/a"
+         /\ Lookup(o, <<"/", "a", "b", "~", "1", "c">>).name = 0
+         /\ Lookup(o, <<"/", "a", "/", "~", "1", "x">>).name = 2
 
 EmitTokens == \A p \in Good : PrintT(<<"VEC", ToJson([kind |-> "tokens", path |-> p, tokens |-> P!Tokens(p)])>>)
 EmitLookup == \A o \in Perms : \A p \in TestPaths :
